@@ -59,6 +59,7 @@ package socket
 // an Inet4 address with exactly those 4 bytes; any other 4- or 16-byte IP becomes an Inet6 address with its 16-byte form;
 // every other length yields nil. The port is copied. Never panics.
 //@ func IPToSockaddr(ip net.IP, port int, zone string) (res unix.Sockaddr)
+//@   ensures res == nil || ref(res) != nil
 //@   ensures !isnil(ip) && len(ip) != 4 && len(ip) != 16 ==> res == nil
 //@   ensures isnil(ip) && len(zone) == 0 ==> typeis(res, "*unix.SockaddrInet4") && ref(res) != nil && fresh(ref(res)) && as4(res).Port == port &&
 //@        as4(res).Addr[0] == 0 && as4(res).Addr[1] == 0 && as4(res).Addr[2] == 0 && as4(res).Addr[3] == 0
@@ -75,6 +76,7 @@ package socket
 //
 //@ func TCPAddrToSockaddr(addr *net.TCPAddr) (res unix.Sockaddr)
 //@   requires addr != nil
+//@   ensures res == nil || ref(res) != nil
 //@   ensures !isnil(addr.IP) && len(addr.IP) != 4 && len(addr.IP) != 16 ==> res == nil
 //@   ensures len(addr.IP) == 4 && len(addr.Zone) == 0 ==> typeis(res, "*unix.SockaddrInet4") && ref(res) != nil && as4(res).Port == addr.Port &&
 //@        as4(res).Addr[0] == addr.IP[0] && as4(res).Addr[1] == addr.IP[1] && as4(res).Addr[2] == addr.IP[2] && as4(res).Addr[3] == addr.IP[3]
@@ -83,6 +85,7 @@ package socket
 //
 //@ func UDPAddrToSockaddr(addr *net.UDPAddr) (res unix.Sockaddr)
 //@   requires addr != nil
+//@   ensures res == nil || ref(res) != nil
 //@   ensures !isnil(addr.IP) && len(addr.IP) != 4 && len(addr.IP) != 16 ==> res == nil
 //@   ensures len(addr.IP) == 4 && len(addr.Zone) == 0 ==> typeis(res, "*unix.SockaddrInet4") && ref(res) != nil && as4(res).Port == addr.Port &&
 //@        as4(res).Addr[0] == addr.IP[0] && as4(res).Addr[1] == addr.IP[1] && as4(res).Addr[2] == addr.IP[2] && as4(res).Addr[3] == addr.IP[3]
@@ -91,11 +94,13 @@ package socket
 //
 //@ func IPAddrToSockaddr(addr *net.IPAddr) (res unix.Sockaddr)
 //@   requires addr != nil
+//@   ensures res == nil || ref(res) != nil
 //@   ensures !isnil(addr.IP) && len(addr.IP) != 4 && len(addr.IP) != 16 ==> res == nil
 //
 // UnixAddrToSockaddr: the path is kept as is; the socket type follows the network name; unknown networks yield (nil, 0).
 //@ func UnixAddrToSockaddr(addr *net.UnixAddr) (res unix.Sockaddr, t int)
 //@   requires addr != nil
+//@   ensures res == nil || ref(res) != nil
 //@   ensures addr.Net == "unix" ==> t == 1 && typeis(res, "*unix.SockaddrUnix") && ref(res) != nil && asun(res).Name == addr.Name
 //@   ensures addr.Net == "unixgram" ==> t == 2 && typeis(res, "*unix.SockaddrUnix") && ref(res) != nil && asun(res).Name == addr.Name
 //@   ensures addr.Net == "unixpacket" ==> t == 5 && typeis(res, "*unix.SockaddrUnix") && ref(res) != nil && asun(res).Name == addr.Name
@@ -104,9 +109,12 @@ package socket
 // NetAddrToSockaddr: dispatch on the dynamic type; unsupported address types (and typed nil results of the helpers) give nil.
 //@ func NetAddrToSockaddr(addr net.Addr) (res unix.Sockaddr)
 //@   requires ref(addr) != nil || addr == nil
+//@   ensures res == nil || ref(res) != nil
 //@   ensures !(typeis(addr, "*net.IPAddr") || typeis(addr, "*net.TCPAddr") || typeis(addr, "*net.UDPAddr") || typeis(addr, "*net.UnixAddr")) ==> res == nil
 //@   ensures typeis(addr, "*net.TCPAddr") && len(astcp(addr).IP) == 4 && len(astcp(addr).Zone) == 0 ==> typeis(res, "*unix.SockaddrInet4") && ref(res) != nil && as4(res).Port == astcp(addr).Port &&
 //@        as4(res).Addr[0] == astcp(addr).IP[0] && as4(res).Addr[1] == astcp(addr).IP[1] && as4(res).Addr[2] == astcp(addr).IP[2] && as4(res).Addr[3] == astcp(addr).IP[3]
+//@   ensures typeis(addr, "*net.UDPAddr") && len(asudp(addr).IP) == 4 && len(asudp(addr).Zone) == 0 ==> typeis(res, "*unix.SockaddrInet4") && ref(res) != nil && as4(res).Port == asudp(addr).Port &&
+//@        as4(res).Addr[0] == asudp(addr).IP[0] && as4(res).Addr[1] == asudp(addr).IP[1] && as4(res).Addr[2] == asudp(addr).IP[2] && as4(res).Addr[3] == asudp(addr).IP[3]
 //@   ensures typeis(addr, "*net.UDPAddr") && len(asudp(addr).IP) == 16 && !net.v4mapped(asudp(addr).IP) ==> typeis(res, "*unix.SockaddrInet6") && ref(res) != nil && as6(res).Port == asudp(addr).Port &&
 //@        (forall k :: 0 <= k && k < 16 ==> as6(res).Addr[k] == asudp(addr).IP[k])
 //@   ensures typeis(addr, "*net.UnixAddr") && asunix(addr).Net == "unix" ==> typeis(res, "*unix.SockaddrUnix") && asun(res).Name == asunix(addr).Name
@@ -121,8 +129,19 @@ package socket
 //@   ensures typeis(sa, "*unix.SockaddrUnix") ==> typeis(res, "*net.UnixAddr") && ref(res) != nil && asunix(res).Name == asun(sa).Name && asunix(res).Net == "unix"
 //@   ensures !(typeis(sa, "*unix.SockaddrInet4") || typeis(sa, "*unix.SockaddrInet6") || typeis(sa, "*unix.SockaddrUnix")) ==> res == nil
 //
+// udpof(a, sa): the net.Addr a reports exactly the kernel address sa (family, address bytes, port).
+//@ pred udpof(a net.Addr, sa unix.Sockaddr) :=
+//@     (typeis(sa, "*unix.SockaddrInet4") ==> typeis(a, "*net.UDPAddr") && ref(a) != nil && asudp(a).Port == as4(sa).Port && len(asudp(a).IP) == 4 &&
+//@          asudp(a).IP[0] == as4(sa).Addr[0] && asudp(a).IP[1] == as4(sa).Addr[1] && asudp(a).IP[2] == as4(sa).Addr[2] && asudp(a).IP[3] == as4(sa).Addr[3]) &&
+//@     (typeis(sa, "*unix.SockaddrInet6") ==> typeis(a, "*net.UDPAddr") && ref(a) != nil && asudp(a).Port == as6(sa).Port && len(asudp(a).IP) == 16 &&
+//@          (forall k :: 0 <= k && k < 16 ==> asudp(a).IP[k] == as6(sa).Addr[k])) &&
+//@     (!(typeis(sa, "*unix.SockaddrInet4") || typeis(sa, "*unix.SockaddrInet6")) ==> a == nil)
+//
 //@ func SockaddrToUDPAddr(sa unix.Sockaddr) (res net.Addr)
 //@   requires ref(sa) != nil || sa == nil
+//@   ensures udpof(res, sa)
+//@   ensures typeis(sa, "*unix.SockaddrInet4") ==> arr(asudp(res).IP) == arr(as4(sa).Addr)
+//@   ensures typeis(sa, "*unix.SockaddrInet6") ==> arr(asudp(res).IP) == arr(as6(sa).Addr)
 //@   ensures typeis(sa, "*unix.SockaddrInet4") ==> typeis(res, "*net.UDPAddr") && ref(res) != nil && asudp(res).Port == as4(sa).Port && len(asudp(res).IP) == 4 && len(asudp(res).Zone) == 0 &&
 //@        asudp(res).IP[0] == as4(sa).Addr[0] && asudp(res).IP[1] == as4(sa).Addr[1] && asudp(res).IP[2] == as4(sa).Addr[2] && asudp(res).IP[3] == as4(sa).Addr[3]
 //@   ensures typeis(sa, "*unix.SockaddrInet6") ==> typeis(res, "*net.UDPAddr") && ref(res) != nil && asudp(res).Port == as6(sa).Port && len(asudp(res).IP) == 16 &&
